@@ -91,6 +91,13 @@ func (r *Remote) cleanPending(num int) {
 }
 
 func (r *Remote) getPendingChan(key string) chan Message {
+	return r.pendingChan(key, false)
+}
+
+// pendingChan returns the channel for replies to key. With waiting set, the
+// entry is marked as having a call blocked on it, such entries are not
+// discarded when the PendingLimit is reached (until setWaiting clears it).
+func (r *Remote) pendingChan(key string, waiting bool) chan Message {
 	r.mu.Lock()
 	defer r.mu.Unlock()
 	if r.pending == nil {
@@ -106,6 +113,10 @@ func (r *Remote) getPendingChan(key string) chan Message {
 			msgChan:   make(chan Message, 1),
 			timestamp: time.Now(),
 		}
+		r.pending[key] = pending
+	}
+	if waiting && !pending.waiting {
+		pending.waiting = true
 		r.pending[key] = pending
 	}
 	return pending.msgChan
@@ -139,12 +150,19 @@ func (r *Remote) Serve() error {
 func (r *Remote) receive(ctx context.Context, ID json.RawMessage) (*Message, error) {
 	key := string(ID)
 	select {
-	case msg := <-r.getPendingChan(key):
+	case msg := <-r.pendingChan(key, true):
 		r.mu.Lock()
 		delete(r.pending, key)
 		r.mu.Unlock()
 		return &msg, nil
 	case <-ctx.Done():
+		// Nobody is waiting anymore, a late reply can be discarded.
+		r.mu.Lock()
+		if pending, ok := r.pending[key]; ok {
+			pending.waiting = false
+			r.pending[key] = pending
+		}
+		r.mu.Unlock()
 		return nil, ctx.Err()
 	}
 }
@@ -166,7 +184,13 @@ func (r *Remote) Call(ctx context.Context, result interface{}, method string, pa
 	if err != nil {
 		return err
 	}
+	// The call counts as waiting for its reply from before the request is sent,
+	// so that a reply which arrives before we start receiving is not discarded.
+	r.pendingChan(string(req.ID), true)
 	if err = r.Codec.WriteMessage(req); err != nil {
+		r.mu.Lock()
+		delete(r.pending, string(req.ID))
+		r.mu.Unlock()
 		return err
 	}
 	resp, err := r.receive(ctx, req.ID)
